@@ -62,6 +62,14 @@
    P8 NoPanic           the node does not crash (a late precommit at the initial height met a nil
                         LastCommit before fix 30343ca: switch Weak "NilLastCommitPanics").
 
+   Judged on observed traces only (TMConsensusHeightsTrace): P4 also demands that every signature is made while
+   cs.Height = block-store height + 1 = saved-state height + 1 and that a prevote / precommit is for a block of THAT
+   height which the node holds (a round state carried over the boundary would break it); P1 also demands that the
+   LastCommit inside the node's own proposal block equals MakeCommit(cs.LastCommit) with valid signatures, and P6 that
+   StartTime = CommitTime + TimeoutCommit while the node waits in step NewHeight.
+
+   Not modelled: CreateEmptyBlocks = false / needProofBlock (the configuration under test always proposes), crashes inside finalizeCommit (C05).
+
    Weak switches of this module (elements of Weak; the ones of TMConsensusNode pass through):
      NilLastCommitPanics, LastCommitFromRound0, LateAnyRound, ValUpdatesEarly, NoRotationAcrossHeights,
      SkipOnQuorum, RestartNoCatchup, RoundSkipSingleIncrement (= the code as it is, see P3 / FINDINGS).
@@ -153,7 +161,7 @@ IncRV(rv, k) ==
   ELSE VS!IncrementEach(VS!CopySet(rv), k)
 
 \* may the application answer EndBlock(w.h) with the updates u?  (an update the set refuses makes ApplyBlock fail and
-\* the node stop; the node under test stays a validator unless the configuration's menu says otherwise)
+\* the node stop; a menu may remove the node under test: Unsigned() then drops what it would have signed)
 ValidUpdate(w, u) == Len(u) = 0 \/ VS!UpdateWithChangeSet(VS!CopySet(w.vs.next), u).err = "none"
 
 \* finalizeCommit(H): SaveBlock(block, parts, seenCommit) - WAL #ENDHEIGHT - ApplyBlock (EndBlock -> u, updateState,
